@@ -61,12 +61,14 @@ def history(kind, script, execs):
     wf = [i.workflow for i in invs]
     per_wf = {0: [], 1: []}
     log = []
+    keep = []     # a runner keeps the invocation objects of finished attempts around (thread table) while the next attempt runs
     for (w, fresh) in execs:
         if fresh:
             # fresh process image: per-process caches of the Task object are gone
             main.__dict__.pop("wf", None)
         iid = invs[w].invocation_id
         inv = app.state_backend.get_invocation(iid)   # what a runner gets: a new invocation object
+        keep.append(inv)
         app.orchestrator.set_invocation_status(iid, St.PENDING, ctx)
         VALUES.clear()
         inv.run(ctx)
